@@ -267,15 +267,17 @@ def fill_roundtrip(ctx, rng, tmp, read_elast_data):
             lines.append("lattice")
             for i in range(3):
                 lines.append(f"{1.0 + i:.4f} {2.0 + i:.4f} {3.0 + i:.4f}")
+        if rng.random() < 0.5:
+            lines[0] = f"static table for {s} \u2014 V in \u00c5\u00b3, MgSiO\u2083"        # header lines are free text (UTF-8)
         f = tmp / "fill_in.dat"
-        f.write_text("\n".join(lines) + "\n")
-        ctx.count({"fill_cli": s, "lat": lat})
+        f.write_text("\n".join(lines) + "\n", encoding="utf8")
+        ctx.count({"fill_cli": s, "lat": lat, "non_ascii_header": not lines[0].isascii()})
         r = CliRunner().invoke(fill_main, ["-s", s, str(f)])
         if r.exit_code != 0:
             ctx.violation(f"cij fill -s {s} failed on a consistent fully supplied table: {r.exception!r}", {"input": "\n".join(lines)}, {"clause": "fill_cli_fails", "system": s})
             continue
         g = tmp / "fill_out.dat"
-        g.write_text(r.output)
+        g.write_text(r.output, encoding="utf8")
         try:
             out = read_elast_data(str(g))
         except Exception as ex:
